@@ -4,7 +4,10 @@ import xml.etree.ElementTree as ET
 import shellrun, impl
 
 OBLIGATIONS = ['Yalafi.C15_mapMatch_total', 'Yalafi.C15_mapMatch_in_file', 'Yalafi.C15_jsonGet_typed', 'Yalafi.C15_jsonGet_no_crash',
-               'Yalafi.C15_sort_checks_offsets']
+               'Yalafi.C15_sort_checks_offsets',
+               # every reported location lies inside the file (Model/Reports.lean, correspondence: corr_reports.py)
+               'Yalafi.C15_located_in_file', 'Yalafi.C15_report_in_file', 'Yalafi.C15_located_char', 'Yalafi.C15_mapped_report_in_file',
+               'Yalafi.C15_zero_length_mapped', 'Yalafi.C15_zero_length_report']
 
 DOCS = ['This is a testx.\nSecond line.\n',
         'Text \\footnote{Deep note here} more $x$ text.\n\nNext \\textbf{par} ends\n',
@@ -172,6 +175,9 @@ def run(ctx):
             ctx.sample({'mode': c['mode'], 'spec': c['spec'], 'rc': r['rc'], 'stderr': r['stderr'][-120:]})
     import corr_shell
     corr_shell.map_match(ctx, ctx.scale(1500, 30000))
+    if ctx.model_ok:
+        import corr_reports
+        corr_reports.reports_corr(ctx, ctx.scale(3000, 30000))
 
 def nonmonotonic_class(c):
     return False
